@@ -88,18 +88,23 @@ pub fn dump_instances<'tcx>(cx: &mut Cx<'tcx>) -> J {
                 && tcx.is_mir_available(did)
             {
                 let body = tcx.instance_mir(inst.def);
+                let mut ext_edges: Vec<J> = vec![];
                 for bb in body.basic_blocks.iter() {
                     if let rustc_middle::mir::TerminatorKind::Call { func, .. } = &bb.terminator().kind {
                         if let rustc_middle::mir::Operand::Constant(c) = func {
                             if let ty::FnDef(callee, cargs) = c.const_.ty().kind() {
                                 if matches!(tcx.def_kind(*callee), DefKind::Fn | DefKind::AssocFn) {
                                     if let Some(ci) = resolve(tcx, env, inst.args, *callee, cargs) {
-                                        intern(ci, &mut list, &mut work);
+                                        let cid = intern(ci, &mut list, &mut work);
+                                        ext_edges.push(J::U(cid as u128));
                                     }
                                 }
                             }
                         }
                     }
+                }
+                if !ext_edges.is_empty() {
+                    calls.push(J::O(vec![("inst", J::U(i as u128)), ("edges", J::A(ext_edges))]));
                 }
             }
             continue;
